@@ -445,6 +445,7 @@ type msgSpec struct {
 	allowed   map[string]aclass   // store form -> class, over every list identify may use
 	nAllowed  map[aclass]int      // how many storable addresses per class the message offers at most in one usable list
 	protos    map[string]struct{} // every protocol name in the message
+	usableRec []string            // envelopes identify may use (valid, signed by and naming p)
 	nProtos   int
 	foreign   bool // carries material of another peer
 	overCap   bool // more protocols / addresses than the caps
@@ -542,6 +543,7 @@ func (w *world) drawMsg(rt *rapid.T, src int, label string) *msgSpec {
 		scalars = append(scalars, scalar{func(x *pb.Identify) { x.SignedPeerRecord = rb }, len(rb) + 4})
 		rdesc = append(rdesc, fmt.Sprintf("%s(%d %s %v)", rs.kind, len(rs.list.addrs), rs.list.mix, rs.list.tags))
 		if rs.kind.usable() {
+			m.usableRec = append(m.usableRec, string(rs.bytes))
 			usable = append(usable, rs.list)
 			if rs.list.hasForeign() {
 				m.foreign = true
